@@ -87,6 +87,8 @@ def run_property(prop, tier, seed, replay=None):
         else:
             ops = Ops()
             n = w.get('n_' + tier, w.get('n', 0))
+            if ('n_' + tier) in w and n == 0 and w.get('skip_when_zero', True) and w['gen'] in (P.w_hist, P.w_parse):
+                continue           # this workload is not part of this tier
             w['gen'](ops, rng, n)
             lines = ops.lines
         configs = w.get('configs_' + tier, w.get('configs', ['default']))
